@@ -124,6 +124,11 @@ def _vacuity(r):
     stray = sorted({v[2] for v in r["viols"]} - owned)
     if stray:
         return f"the trace spec reported invariants no property owns: {stray}"
+    if r["viols"]:
+        # the coverage counters are derived from recorded values: they are only meaningful on a clean run (a property
+        # of this group that fails is reported as VIOLATION; its siblings must not turn into tool errors because the
+        # failing values also starve a counter)
+        return None
     s = r["stats"]
     need = dict(ss_steps=200, sl_steps=100, clipped=5, unclipped=50, braking=20, boundary=20, multilink=5,
                 astride=50, curved=20, negerr=5, strap=200, getters=1)
